@@ -68,19 +68,20 @@ TIMEOUT = {"quick": 1500, "thorough": 5 * 3600}
 
 # Named regions of confirmed findings the generator stays out of (see REGIONS at the bottom for the predicates).
 # VERIF_C18_EXCLUDE="" (empty) switches all exclusions off; VERIF_C18_EXCLUDE="a,b" selects some.
-EXCLUDE = {
-    "subgraph_autonames",       # bodies without their own module scope: auto names v_<Op>_<n>/<Op>_node_<n> repeat outer names
-    "inline_py_attr",           # call_inline(fn, x, alpha=0.5) with a plain Python attribute value raises
-    "inline_default_attr",      # call_inline without an attribute that has a default: the default is dropped
-    "inline_literal_arg",       # call_inline(fn, x, 2.0): literal operand not promoted (call() does promote)
-    "nested_function",          # call()/call_inline() of a script function that calls another: callee never registered
-    "nan_literal",              # two NaN literals: ValueError initializer 'const_nan_f32' already registered
-    "negzero_literal",          # -0.0 shares the cache entry of 0.0 (C12 finding) -> wrong sign
-    "unnamed_tensor_operand",   # numpy array / unnamed ir.tensor operand: 'Initializer must have a name'
-    "body_dup_return",          # body returning one value for two declared outputs -> duplicate subgraph outputs
-    "kw_input_after_gap",       # op.Clip(x, max=3.0): keyword input after an omitted optional one lands one position early
-    "rehomed_in_unnamed_sequential",  # trees: Sequential(*old_list[k:]) keeps the names the old list gave ("3.w" vs key "0.w")
-}
+# Region names (predicates in REGIONS): subgraph_autonames, inline_py_attr, inline_default_attr, inline_literal_arg, nested_function,
+# nan_literal, negzero_literal, unnamed_tensor_operand, body_dup_return, kw_input_after_gap, rehomed_in_unnamed_sequential.
+# By default the generator stays out of exactly the regions of the committed *known* findings of this property
+# (known_findings.json, read-only); fixed findings are searched again.
+def _known_regions():
+    try:
+        from vf.runner import load_known
+
+        return {e.get("region") for e in load_known("C18") if e.get("status") == "known" and e.get("region")}
+    except Exception:  # noqa: BLE001
+        return set()
+
+
+EXCLUDE = _known_regions()
 _env_ex = os.environ.get("VERIF_C18_EXCLUDE")
 if _env_ex is not None:
     EXCLUDE = {x for x in _env_ex.split(",") if x}
